@@ -8,6 +8,7 @@ import (
 	"math"
 	"math/rand"
 	"net/http"
+	"net/http/httptest"
 	"net/url"
 	"os"
 	"os/exec"
@@ -471,6 +472,42 @@ func withServerNoise(c *fw.Ctx, base string, files []string, f func()) {
 	wg.Wait()
 	client.CloseIdleConnections()
 	c.Count("concurrent_noise_requests_served", atomic.LoadInt64(&done))
+}
+
+// breakingListingProxy forwards every request to the server at u, except that the text listings of /files and /items
+// break off: the full Content-Length is announced, the first half of the lines (complete lines only) is sent and the
+// connection is closed - a peer that dies in the middle of its answer.
+func breakingListingProxy(u string) *httptest.Server {
+	return httptest.NewServer(http.HandlerFunc(func(w http.ResponseWriter, req *http.Request) {
+		resp, err := http.Get(u + req.URL.RequestURI())
+		if err != nil {
+			http.Error(w, err.Error(), http.StatusBadGateway)
+			return
+		}
+		body, _ := io.ReadAll(resp.Body)
+		resp.Body.Close()
+		if (req.URL.Path == "/files" || req.URL.Path == "/items") && resp.StatusCode == 200 {
+			lines := bytes.SplitAfter(body, []byte("\n"))
+			var half []byte
+			for _, ln := range lines[:len(lines)/2] {
+				half = append(half, ln...)
+			}
+			if hj, ok := w.(http.Hijacker); ok {
+				if conn, buf, err := hj.Hijack(); err == nil {
+					fmt.Fprintf(buf, "HTTP/1.1 200 OK\r\nContent-Type: text/plain; charset=utf-8\r\nContent-Length: %d\r\n\r\n", len(body))
+					buf.Write(half)
+					buf.Flush()
+					conn.Close()
+					return
+				}
+			}
+		}
+		for k, v := range resp.Header {
+			w.Header()[k] = v
+		}
+		w.WriteHeader(resp.StatusCode)
+		w.Write(body)
+	}))
 }
 
 // serverOutput returns what the worker's server printed so far (for panic scanning).
